@@ -175,6 +175,13 @@ def rulesets(tier):
     many.update(A={1: [('a', 1.0)]}, C={1: [('L', .5), ('U', .5)]}, D={1: [('1', 1.0)]}, grammar=[('A1A1A1', .7), ('A1D1', .3)], prince=D.PRINCE)
     types_l, base_l = R.ref_loaded(many, False, False)
     out.append(('three alpha runs loaded from disk', types_l, base_l, (many, False, False)))
+    # a ruleset trained on Capitalised passwords: the most probable mask of a length is not the all-lower-case one; under --all_lower the masks
+    # collapse to the all-lower-case mask all the same
+    capfirst = dict(D.TERMINALS[0])
+    capfirst.update(C={1: [('U', .6), ('L', .4)], 2: [('UL', .5), ('LL', .3), ('UU', .2)]}, grammar=[('A1D1', .5), ('A2', .3), ('D1', .2)], prince=D.PRINCE)
+    for sb, sc in ((False, True), (False, False)):
+        types_l, base_l = R.ref_loaded(capfirst, sb, sc)
+        out.append(('capitalised masks first, all_lower=%s' % sc, types_l, base_l, (capfirst, sb, sc)))
     out.append(('renormalised (skip_brute style)', {'D1': t['D1'], 'O1': t['O1']}, [(.3 / .7, ['D1']), (.25 / .7, ['O1']), (.15 / .7, ['D1', 'O1'])]))
     return out
 
@@ -244,6 +251,17 @@ def _walk_one(gm, entry, acc, second):
         g = D.load(gm.PcfgGrammar, root_l, sb_l, sc_l, 'Grammar')
         if sb_l:
             base = [(p, r) for p, r in base]
+        # the cells of the walk are named by group indices: what the groups of the loaded grammar stand for must be what the ruleset under these
+        # flags says (under --all_lower: one all-lower-case mask per length)
+        for t, groups in types.items():
+            have = g.grammar.get(t)
+            if have is None:
+                continue
+            got = [list(grp['values']) for grp in have]
+            want = [list(vals) for _, vals in groups]
+            acc.evals += 1
+            if got != want:
+                acc.fail({'ruleset': name, 'type': t}, '[%s] the groups of %s in the loaded grammar hold %r, the ruleset under these flags gives %r' % (name, t, got[:4], want[:4]), 'loaded-terminals')
     else:
         g = R.mem_grammar(gm.PcfgGrammar, types, base)
     case0 = {'ruleset': name}
